@@ -357,6 +357,8 @@ class G:
         else:
             rows = [{"m": self.ch(["insert", "insert", "insert", "replace"]), "a": [self.val(), self.val()]}
                     for _ in range(self.rng.randint(1, 3))]
+            if self.p(0.1):  # one row given as a list
+                rows.append({"m": "insert", "a": [{"t": "v", "k": "list", "v": [7, "l"]}]})
             if self.p(0.15):  # several rows in one call
                 rows.append({"m": "insert", "a": [{"t": "v", "k": "tuple", "v": [1, "r"]}, {"t": "v", "k": "tuple", "v": [2, "s"]}]})
             A.append({"group": "rows", "calls": rows})
@@ -364,7 +366,15 @@ class G:
                 c = []
                 if cls == "MySQLQuery":
                     c.append({"m": "on_conflict", "a": []})
-                    c.append({"m": "do_update", "a": [self.ch(COLS), self.val()]} if self.p(0.6) else {"m": "do_nothing", "a": []})
+                    r = self.rng.random()
+                    if r < 0.5:
+                        c.append({"m": "do_update", "a": [self.ch(COLS), self.ch([1, "v", 0])]})
+                    elif r < 0.7:
+                        # value-less form: col=<alias>.col, the alias of the inserted row given by as_()
+                        c.append({"m": "do_update", "a": [self.ch(COLS)]})
+                        A.append({"group": "alias", "calls": [{"m": "as_", "a": ["new_row"]}]})
+                    else:
+                        c.append({"m": "do_nothing", "a": []})
                 elif mode == "main" and self.p(0.4):
                     # on_conflict() and do_update() are different clauses and commute; a where() delivered AFTER both
                     # (program["tail"]) is routed to DO UPDATE ... WHERE whatever their relative order was
@@ -376,11 +386,13 @@ class G:
                         self.tail = [{"m": "where", "a": [self.crit(TA)]}]
                     c = None
                 else:
-                    c.append({"m": "on_conflict", "a": [self.ch(COLS)]})
+                    c.append({"m": "on_conflict", "a": [self.ch(COLS) if self.p(0.7) else F(TA, self.ch(COLS))]
+                              + ([self.ch(COLS)] if self.p(0.2) else [])})
                     if self.p(0.3):
                         c.append({"m": "where", "a": [self.crit(TA)]})
                     if self.p(0.7):
-                        c.append({"m": "do_update", "a": [self.ch(COLS)] + ([self.ch([1, "v"])] if self.p(0.6) else [])})
+                        c.append({"m": "do_update", "a": [self.ch(COLS) if self.p(0.7) else F(TA, self.ch(COLS))]
+                                  + ([self.ch([1, "v"])] if self.p(0.6) else [])})
                         if self.p(0.4):
                             c.append({"m": "do_update", "a": [self.ch(COLS), 2]})
                         if self.p(0.3):
